@@ -35,7 +35,9 @@ unsigned long long g_bstar;
 unsigned int g_ostar;
 unsigned char g_disk, g_logical;
 unsigned int g_nwrites;		/* number of raw_write_blk calls so far (ghost) */
-unsigned int g_choice;		/* next ret_choice to consume */
+unsigned int g_choice;
+unsigned int g_nreads;
+int g_wfail;			/* ghost: some device write has failed */		/* next ret_choice to consume */
 
 #include "lib/ext2fs/unix_io.c"
 
@@ -44,15 +46,18 @@ static struct unix_private_data DATA;
 
 #define E(i) (data->cache[i])
 #define MATCH(i) (E(i).in_use && E(i).block == g_bstar)
-#define ENTRY_OK(i) (!MATCH(i) || (E(i).buf[g_ostar] == (char)g_logical && (E(i).dirty || g_disk == g_logical)))
+#define ENTRY_OK(i, L) (!MATCH(i) || (E(i).buf[g_ostar] == (char)(L) && (E(i).dirty || g_disk == (L))))
 #define NMATCH (MATCH(0) + MATCH(1) + MATCH(2) + MATCH(3) + MATCH(4) + MATCH(5) + MATCH(6) + MATCH(7))
-#define COHERENT (NMATCH <= 1 && ENTRY_OK(0) && ENTRY_OK(1) && ENTRY_OK(2) && ENTRY_OK(3) && ENTRY_OK(4) && \
-		  ENTRY_OK(5) && ENTRY_OK(6) && ENTRY_OK(7) && (NMATCH == 1 || g_disk == g_logical))
+#define COHERENT_L(L) (NMATCH <= 1 && ENTRY_OK(0, L) && ENTRY_OK(1, L) && ENTRY_OK(2, L) && ENTRY_OK(3, L) && ENTRY_OK(4, L) && \
+		  ENTRY_OK(5, L) && ENTRY_OK(6, L) && ENTRY_OK(7, L) && (NMATCH == 1 || g_disk == (L)))
+#define COHERENT COHERENT_L(g_logical)
 #define ANY(f) (f(0) || f(1) || f(2) || f(3) || f(4) || f(5) || f(6) || f(7))
 #define INUSE_DIRTY(i) (E(i).in_use && E(i).dirty)
 #define INUSE(i) (E(i).in_use)
 
 static int coherent(struct unix_private_data *data) { return COHERENT; }
+/* coherent w.r.t. an explicitly given 'most recently written' byte */
+static int coherent_l(struct unix_private_data *data, unsigned char l) { return COHERENT_L(l); }
 static int any_dirty(struct unix_private_data *data) { return ANY(INUSE_DIRTY); }
 static int any_inuse(struct unix_private_data *data) { return ANY(INUSE); }
 
@@ -69,14 +74,33 @@ static int any_inuse(struct unix_private_data *data) { return ANY(INUSE); }
 static errcode_t raw_write_blk(io_channel channel, struct unix_private_data *data,
 			       unsigned long long block, int count, const void *bufv, int flags)
 	REQUIRES(count != 0)
-	ASSIGNS(g_disk, g_nwrites, data->io_stats.bytes_written)
+	ASSIGNS(g_disk, g_nwrites, g_wfail, data->io_stats.bytes_written)
 	ENSURES(g_nwrites == OLD(g_nwrites) + 1)
+	ENSURES(RET == 0 ? g_wfail == OLD(g_wfail) : g_wfail == 1)
 	ENSURES(COVERS(channel, block, count) ?
 		(RET != 0 || g_disk == BUF_AT(channel, block, count, bufv)) : g_disk == OLD(g_disk));
 
 #ifdef CFG_BS
 static char CBUFS[8][CFG_BS];	/* content unconstrained under the verifier: see build_channel */
 #endif
+
+/* the device, read side: a successful read delivers the device byte at L* when the range covers it */
+static errcode_t raw_read_blk(io_channel channel, struct unix_private_data *data,
+			      unsigned long long block, int count, void *bufv)
+	REQUIRES(count != 0)
+	ASSIGNS(__CPROVER_object_whole(bufv), data->io_stats.bytes_read, g_nreads)
+	ENSURES(g_nreads == OLD(g_nreads) + 1)
+	ENSURES(RET != 0 || !COVERS(channel, block, count) || BUF_AT(channel, block, count, bufv) == g_disk);
+
+/* contract of flush_cached_blocks (enforced in unit unixio/flush_cached_blocks, used at call sites elsewhere) */
+static errcode_t flush_cached_blocks(io_channel channel, struct unix_private_data *data, int flags)
+	REQUIRES(coherent(data) && channel->write_error == 0 && !(data->flags & IO_FLAG_THREADS))
+	ENSURES(coherent(data))
+	ENSURES(RET != 0 || (!any_dirty(data) && g_disk == g_logical))
+	ENSURES(RET != 0 || !(flags & FLUSH_INVALIDATE) || !any_inuse(data))
+	ENSURES(RET == 0 || g_nwrites > 0)
+	ENSURES(RET == 0 ? g_wfail == OLD(g_wfail) : g_wfail == 1)
+	ASSIGNS(__CPROVER_object_whole(data), g_disk, g_nwrites, g_wfail);
 
 static void build_channel(void)
 {
@@ -101,7 +125,7 @@ static void build_channel(void)
 	DATA.access_time = IN.access_time;
 	ASSUME(IN.access_time >= 0 && IN.access_time < 0x7fffff00);	/* assumption: < 2^31 cache accesses per channel (int counter) */
 	g_bstar = IN.bstar; g_ostar = IN.ostar; g_disk = IN.disk; g_logical = IN.logical;
-	g_nwrites = 0; g_choice = 0;
+	g_nwrites = 0; g_nreads = 0; g_choice = 0; g_wfail = 0;
 #if defined(CFG_BS) && !defined(VERIF_NATIVE)
 	__CPROVER_havoc_object(CBUFS);
 #endif
